@@ -5,6 +5,8 @@
 //            t = std::as_const(t).slice(begin, end) / t = t.slice(begin, end) must leave exactly the old elements [begin, end)
 //            (build with -fsanitize=address: a read of the released buffer aborts)
 //        C16_tensor_replay integral8 <v0> <v1> ..     int8 -> int64 summed-area table of one row against the naive prefix sums
+//        C16_tensor_replay moved_resize               a tensor that was moved from is resized back to its old shape: it must own size() elements
+//        C16_tensor_replay integral_empty             summed-area table of a 3x0 tensor mapped over sentinel memory: nothing may be written
 //        C16_tensor_replay gather                     index gather into a RE-USED owning buffer of equal element count but other shape
 // exit 0: view as specified; 1: view differs; an assertion of the library aborts the process (reported by the caller)
 #include <nano/tensor/integral.h>
@@ -78,8 +80,30 @@ static int run_gather()
     std::printf("{\"rows\": %lld, \"cols\": %lld, \"expected\": \"1x4 (row 3)\", \"ok\": %s}\n", (long long)buffer.size<0>(), (long long)buffer.size<1>(), ok ? "true" : "false");
     return ok ? 0 : 1;
 }
+static int run_moved_resize()
+{
+    tensor_mem_t<double, 2> a(2, 3);
+    tensor_mem_t<double, 2> b(std::move(a)); // a: moved from
+    a.resize(2, 3);
+    const auto held = a.vector().size();      // the number of coefficients the storage really holds
+    const bool ok   = a.size() == 6 && held == 6 && a.data() != nullptr;
+    std::printf("{\"size\": %lld, \"elements_held\": %lld, \"data_is_null\": %s, \"ok\": %s}\n", (long long)a.size(), (long long)(a.data() == nullptr ? 0 : held),
+                a.data() == nullptr ? "true" : "false", ok ? "true" : "false");
+    return (ok && b.size() == 6) ? 0 : 1;
+}
+static int run_integral_empty()
+{
+    int8_t  ibuf[1] = {5};
+    int64_t obuf[1] = {77};                   // sentinel: the 3x0 output maps NO element of it
+    integral(map_tensor(static_cast<const int8_t*>(ibuf), 3, 0), map_tensor(obuf, 3, 0));
+    const bool ok = obuf[0] == 77;
+    std::printf("{\"shape\": \"3x0\", \"sentinel_after\": %lld, \"ok\": %s}\n", (long long)obuf[0], ok ? "true" : "false");
+    return ok ? 0 : 1;
+}
 int main(int argc, char** argv)
 {
+    if (argc == 2 && std::strcmp(argv[1], "moved_resize") == 0) return run_moved_resize();
+    if (argc == 2 && std::strcmp(argv[1], "integral_empty") == 0) return run_integral_empty();
     if (argc >= 3 && std::strcmp(argv[1], "integral8") == 0) return run_integral8(argc, argv);
     if (argc == 2 && std::strcmp(argv[1], "gather") == 0) return run_gather();
     if (argc == 6 && std::strcmp(argv[1], "selfview") == 0) return run_selfview(argv);
